@@ -51,6 +51,12 @@ type scen struct {
 	// "reading of 'while the broadcaster is open'"); own finding key.
 	strict bool
 	class  string // finding key; default: by the kinds of subscribers and Close
+	// extra Close calls from further threads: 'o' overlapping (released as soon
+	// as the first Close has been CALLED), 'a' after (released when the first
+	// Close has RETURNED). The oracle is applied at the return of EVERY Close.
+	// In these scenarios prompt readers are re-armed whenever a Close returns
+	// (see read), so that a send after that instant is seen as such.
+	moreCloses string
 }
 
 func (s scen) nvals() int {
@@ -84,6 +90,9 @@ func (s scen) name() string {
 	if s.strict {
 		c = fmt.Sprint("after", s.closeAt, "returned")
 	}
+	if s.moreCloses != "" {
+		c += "+" + s.moreCloses
+	}
 	pre := ""
 	if s.strict {
 		pre = "strict "
@@ -104,6 +113,7 @@ type subRec struct {
 	subscribed bool // Subscribe returned
 	cancelled  bool // cancel was called
 	got        []recv
+	poke       *mc.Chan[struct{}] // multi-Close scenarios: a Close has returned
 }
 
 type bcRec struct {
@@ -154,6 +164,9 @@ func mkExec(s scen) *mc.Exec {
 		for i, x := range s.subs {
 			// unbuffered: a receive by the harness coincides with the send by the library
 			subs[i] = &subRec{sub: x, ch: mc.NewChan[int]()}
+			if s.moreCloses != "" {
+				subs[i].poke = mc.NewChan[struct{}](1 + len(s.moreCloses))
+			}
 			ctxs[i], cancels[i] = mc.CtxWithCancel(context.Background())
 		}
 		// early subscribers: Subscribe returns before any Broadcast is called
@@ -204,9 +217,21 @@ func mkExec(s scen) *mc.Exec {
 			i, x := i, x
 			sr := subs[i]
 			read := func() {
-				after := closeRet
-				v := sr.ch.Recv()
-				sr.got = append(sr.got, recv{v, after})
+				for {
+					after := closeRet
+					if sr.poke == nil {
+						sr.got = append(sr.got, recv{sr.ch.Recv(), after})
+						return
+					}
+					// a receive that was waiting when a Close returned is
+					// abandoned and started again, so that "started after Close
+					// had returned" is exact for whatever the library sends later
+					rc, pc := sr.ch.RecvCase(), sr.poke.RecvCase()
+					if mc.Select(false, rc, pc) == 0 {
+						sr.got = append(sr.got, recv{rc.V, after})
+						return
+					}
+				}
 			}
 			switch x.kind {
 			case 'p', 'q':
@@ -226,19 +251,45 @@ func mkExec(s scen) *mc.Exec {
 			}
 		}
 		if s.closeAt >= 0 {
-			mc.GoNamed("closer", func() {
-				gate.Recv()
-				closeCalled = true
-				b.Close()
+			firstCalled := mc.NewChan[struct{}]()
+			firstReturned := mc.NewChan[struct{}]()
+			// the oracle at the return of a Close call (any of them)
+			returnedFrom := func(who string) {
 				closeRet = true
 				// a library goroutine parked in a send on a subscriber channel
 				// now would deliver to any reader arriving after Close returned
 				for i, sr := range subs {
-					if v, ok, got := sr.ch.TryRecv(); got && ok {
-						probeErr = fmt.Sprintf("a send of value %d to subscriber %d was still in progress when Close returned", v, i)
+					if v, ok, got := sr.ch.TryRecv(); got && ok && probeErr == "" {
+						probeErr = fmt.Sprintf("a send of value %d to subscriber %d was still in progress when Close returned to %s", v, i, who)
 					}
 				}
+				for _, sr := range subs {
+					if sr.poke != nil {
+						sr.poke.Send(struct{}{})
+					}
+				}
+			}
+			mc.GoNamed("closer", func() {
+				gate.Recv()
+				closeCalled = true
+				firstCalled.Close()
+				b.Close()
+				returnedFrom("closer")
+				firstReturned.Close()
 			})
+			for k, m := range s.moreCloses {
+				k, m := k, m
+				name := fmt.Sprintf("closer%d", k+2)
+				mc.GoNamed(name, func() {
+					if m == 'a' {
+						firstReturned.Recv()
+					} else {
+						firstCalled.Recv()
+					}
+					b.Close()
+					returnedFrom(name)
+				})
+			}
 		}
 		// stalled subscribers leave last in the default order: by then a
 		// Broadcast may be parked on their full buffer
@@ -267,7 +318,7 @@ func mkExec(s scen) *mc.Exec {
 		// (1) Broadcast, Subscribe and Close always return (every stalled
 		// subscriber of the scenario has left by now, see the leave threads)
 		for _, t := range e.Threads {
-			must := t.Name == "main" || t.Name == "closer" || strings.HasPrefix(t.Name, "bc") ||
+			must := t.Name == "main" || strings.HasPrefix(t.Name, "closer") || strings.HasPrefix(t.Name, "bc") ||
 				strings.HasPrefix(t.Name, "subscribe") || strings.HasPrefix(t.Name, "leave")
 			if must && !t.Finished {
 				return fmt.Errorf("deadlock: %s never returned (blocked on %s); %s", t.Name, t.WaitOn, describe())
@@ -441,6 +492,7 @@ const (
 	classStrict = "broadcaster/close-drops-accepted-values"
 	classDuring = "broadcaster/departure-during-delivery"
 	classStall  = "broadcaster/close-with-stalled-subscriber"
+	classMulti  = "broadcaster/overlapping-close"
 )
 
 func classOf(s scen) string {
@@ -603,6 +655,45 @@ func scaledScenarios() []hx.Scenario {
 						add(s, false, 2, 2, false)
 					case nv == 1, len(shape) == 1 && nv == 2, nv == 2 && c < 0:
 						add(s, false, 1, 1, false)
+					}
+				}
+			}
+		}
+	}
+	// two and three Close calls from different threads, overlapping the first
+	// one ('o') or following it ('a'), where the first Close has something to
+	// wait for: a Broadcast parked on a stalled reader that leaves later (4
+	// values), values buffered for / held for a reader that does not read (n,
+	// <= 2 values), forwarders still draining to prompt readers. The oracle
+	// holds at the return of EVERY Close: nothing is sent afterwards.
+	for _, m := range []struct {
+		shape []int
+		subs  []sub
+		quick bool
+	}{
+		{[]int{4}, []sub{{kind: 'x'}, {kind: 'p'}}, true},
+		{[]int{4}, []sub{{kind: 'p'}, {kind: 'x'}}, false},
+		{[]int{2, 2}, []sub{{kind: 'x'}, {kind: 'p'}}, false},
+		{[]int{4}, []sub{{kind: 's', k: 1}, {kind: 'p'}}, false},
+		{[]int{2}, []sub{{kind: 'n'}}, true},
+		{[]int{2}, []sub{{kind: 'n'}, {kind: 'p'}}, true},
+		{[]int{1}, []sub{{kind: 'p'}}, true},
+		{[]int{2}, []sub{{kind: 'p'}, {kind: 'p'}}, false},
+		{[]int{1, 1}, []sub{{kind: 'p'}, {kind: 'x'}}, false},
+	} {
+		nv := 0
+		for _, x := range m.shape {
+			nv += x
+		}
+		for _, more := range []string{"o", "a", "oo", "oa"} {
+			for _, c := range []int{0, nv} {
+				quick := m.quick && (more == "o" || (more == "a" && c == nv && nv <= 2) || (more == "oo" && c == nv && nv == 4))
+				before := len(out)
+				add(scen{bcs: values(m.shape), subs: m.subs, closeAt: c, moreCloses: more, class: classMulti}, true, 2, 3, !quick)
+				if len(out) > before {
+					prio[len(prio)-1] = 0
+					if nv == 4 {
+						out[len(out)-1].QuickMin = hx.Ptr(1)
 					}
 				}
 			}
